@@ -154,3 +154,16 @@ func VerifEval(s *State, prog ast.Node) object.Object { return verifEval(s, prog
 
 // VerifUsesIdent exports verifUsesIdent.
 func VerifUsesIdent(code, name string) bool { return verifUsesIdent(code, name) }
+
+// VerifGlobalKinds lists the names bound at top level with "func" or "var".
+func VerifGlobalKinds(s *State) map[string]string {
+	res := map[string]string{}
+	for name, v := range s.rootEnv.RootStore() {
+		if object.Value(v).Type() == object.FUNC {
+			res[name] = "func"
+		} else {
+			res[name] = "var"
+		}
+	}
+	return res
+}
